@@ -25,7 +25,7 @@ func init() {
 	register(&Property{
 		ID:      "C03",
 		NeedSSA: true,
-		Decided: "Narrow structural necessary conditions only: (nullwidth) every width-specific null scanner nullIndex<T> of the typed ingestion path scans elements of the width of T (it calls the kernel named after 8·sizeof(T) or the generic scanner instantiated with T), in every build configuration; (nullkinds) the reflection path decides `null` for pointer-like kinds (pointer, map, slice, interface) by IsNil, like the typed path's pointer test, never by length or zero-ness; (siblings) the entry points that shred through a shared implementation hand it the same set of level fields (composite literals passed to one callee set the same keys); (mapscratch) the map re-assembly clears its scratch element after each entry; (dispatch) the node-shape dispatchers of the typed, reflection and row paths test the same predicates (optional, repeated, list, map) in the same order. (appendalias) inside a loop, a slice built by appending to a base slice that is the same on every iteration (a parameter not always passed clipped, a field, a value computed before the loop) is not retained unless the base's capacity was clipped: retained slices would share the base's spare capacity. (accum) a recursive walk (schema tree, embedded structs) that adds to an integer parameter — column index, level, byte offset — passes, at every recursive call, an argument computed from that parameter (through arithmetic, conversions, calls that received it, maps filled with it, and the reaching definitions of local struct fields), so the running number is not restarted at a nested level.",
+		Decided: "Narrow structural necessary conditions only: (nullwidth) every width-specific null scanner nullIndex<T> of the typed ingestion path scans elements of the width of T (it calls the kernel named after 8·sizeof(T) or the generic scanner instantiated with a type of that width), and the floating-point scanners never instantiate the generic scanner with a floating-point type (it would compare values, and -0.0 == 0, where reflect.Value.IsZero and the assembly kernels test bits), in every build configuration; (nullkinds) the reflection path decides `null` for pointer-like kinds (pointer, map, slice, interface) by IsNil, like the typed path's pointer test, never by length or zero-ness; (siblings) the entry points that shred through a shared implementation hand it the same set of level fields (composite literals passed to one callee set the same keys); (mapscratch) the map re-assembly clears its scratch element after each entry; (dispatch) the node-shape dispatchers of the typed, reflection and row paths test the same predicates (optional, repeated, list, map) in the same order. (appendalias) inside a loop, a slice built by appending to a base slice that is the same on every iteration (a parameter not always passed clipped, a field, a value computed before the loop) is not retained unless the base's capacity was clipped: retained slices would share the base's spare capacity. (accum) a recursive walk (schema tree, embedded structs) that adds to an integer parameter — column index, level, byte offset — passes, at every recursive call, an argument computed from that parameter (through arithmetic, conversions, calls that received it, maps filled with it, and the reaching definitions of local struct fields), so the running number is not restarted at a nested level.",
 		NotDecided: "the level values themselves, null-bitmap scanning, batch boundaries, the amounts added to offsets and indexes, ordering of map keys — value-dependent.",
 		Assumptions: []string{"see DESIGN.md §4 C03"},
 		Run:         runC03,
@@ -209,6 +209,7 @@ func runC03(c *Ctx) {
 		}
 		var got []string
 		ok := false
+		floatCompare := ""
 		allCalls(fn, false, func(_ *ssa.Function, call ssa.CallInstruction) {
 			callee := call.Common().StaticCallee()
 			if callee == nil || !strings.HasPrefix(fnName(callee), "nullIndex") {
@@ -216,6 +217,9 @@ func runC03(c *Ctx) {
 			}
 			suffix := strings.TrimPrefix(fnName(callee), "nullIndex")
 			if suffix == "" && len(callee.TypeArgs()) == 1 {
+				if bt, isB := callee.TypeArgs()[0].Underlying().(*types.Basic); isB && bt.Info()&types.IsFloat != 0 {
+					floatCompare = "nullIndex[" + callee.TypeArgs()[0].String() + "]"
+				}
 				// the generic scanner compares whole values of T: T must be the type the function is named after
 				ta := callee.TypeArgs()[0].String()
 				got = append(got, "nullIndex["+ta+"]")
@@ -238,6 +242,12 @@ func runC03(c *Ctx) {
 		}
 		n++
 		sort.Strings(got)
+		if strings.HasPrefix(name, "Float") {
+			// -0.0 == 0 but is not the zero value (reflect.Value.IsZero, and the
+			// assembly scanners, test the bits): a float scanner that compares
+			// values makes -0.0 a null in this build only
+			c.Check(rule, "nullIndex"+name+" tests the bits of the value", fn.Pos(), floatCompare == "", "nullIndex"+name+" delegates to "+floatCompare+", which compares floating-point values: -0.0 equals the zero value and is written as null, while the accelerated build and the reflection path (reflect.Value.IsZero) test the bits and write it as a value — the same rows give different files in the two builds")
+		}
 		c.Check(rule, "nullIndex"+name+" scans "+itoa(int(want))+"-byte elements", fn.Pos(), ok, "nullIndex"+name+" delegates to "+strings.Join(got, ", ")+", which tests elements of another width: a value whose low bytes are zero is taken for the zero value and written as null (or the reverse)")
 	}
 	c.Stats[rule+".scanners"] = n
